@@ -1,0 +1,92 @@
+//go:build verif
+
+package either
+
+// BOUNDED stand-ins (never counted as proved) for the loop-based traversals of Either — property C02:
+// FoldM / Traverse / TraverseSeq / TraverseSlice / Traverse_ / Sequence on literal inputs of length 0..3
+// with symbolic elements and callbacks, compared (value AND callback trace: which calls, in which order,
+// with which arguments) with the explicit left-to-right short-circuit program.  Every failure position of
+// a three-element input is one branch of that program.
+
+//@ import "github.com/csgura/fp/iterator"
+//
+//@ ghost
+//@ func specFoldM3[L, A, B any](a, b, c A, z B, f func(B, A) fp.Either[L, B]) fp.Either[L, B] {
+//@ 	t1 := f(z, a)
+//@ 	if !t1.IsRight() {
+//@ 		return t1
+//@ 	}
+//@ 	t2 := f(t1.Get(), b)
+//@ 	if !t2.IsRight() {
+//@ 		return t2
+//@ 	}
+//@ 	return f(t2.Get(), c)
+//@ }
+//@ func specTraverse3[L, A, R any](a, b, c A, fn func(A) fp.Either[L, R]) fp.Either[L, fp.Seq[R]] {
+//@ 	r1 := fn(a)
+//@ 	if !r1.IsRight() {
+//@ 		return Left[L, fp.Seq[R]](r1.Left())
+//@ 	}
+//@ 	r2 := fn(b)
+//@ 	if !r2.IsRight() {
+//@ 		return Left[L, fp.Seq[R]](r2.Left())
+//@ 	}
+//@ 	r3 := fn(c)
+//@ 	if !r3.IsRight() {
+//@ 		return Left[L, fp.Seq[R]](r3.Left())
+//@ 	}
+//@ 	return Right[L](fp.Seq[R]{r1.Get(), r2.Get(), r3.Get()})
+//@ }
+//@ func specSequence3[L, A any](ta, tb, tc fp.Either[L, A]) fp.Either[L, fp.Seq[A]] {
+//@ 	if !ta.IsRight() {
+//@ 		return Left[L, fp.Seq[A]](ta.Left())
+//@ 	}
+//@ 	if !tb.IsRight() {
+//@ 		return Left[L, fp.Seq[A]](tb.Left())
+//@ 	}
+//@ 	if !tc.IsRight() {
+//@ 		return Left[L, fp.Seq[A]](tc.Left())
+//@ 	}
+//@ 	return Right[L](fp.Seq[A]{ta.Get(), tb.Get(), tc.Get()})
+//@ }
+//@ func seqOfIter[L, R any](t fp.Either[L, fp.Iterator[R]]) fp.Either[L, fp.Seq[R]] {
+//@ 	if !t.IsRight() {
+//@ 		return Left[L, fp.Seq[R]](t.Left())
+//@ 	}
+//@ 	return Right[L](fp.Seq[R](t.Get().ToSeq()))
+//@ }
+//@ func seqOfSlice[L, R any](t fp.Either[L, []R]) fp.Either[L, fp.Seq[R]] {
+//@ 	if !t.IsRight() {
+//@ 		return Left[L, fp.Seq[R]](t.Left())
+//@ 	}
+//@ 	return Right[L](fp.Seq[R](t.Get()))
+//@ }
+//@ end
+//
+//@ lemma eitherFoldM3[L, A, B any](a, b, c A, z B, f func(B, A) fp.Either[L, B])
+//@   prop C02
+//@   option unroll
+//@   ensures EqT(FoldM(fp.IteratorOfSeq(fp.Seq[A]{a, b, c}), z, f), specFoldM3(a, b, c, z, f))
+//@   tag firstFailureWinsLaterNotCalled
+//@   ensures EqT(FoldM(fp.IteratorOfSeq(fp.Seq[A]{}), z, f), Right[L](z))
+//@   tag empty
+//
+//@ lemma eitherTraverse3[L, A, R any](a, b, c A, fn func(A) fp.Either[L, R])
+//@   prop C02
+//@   option unroll
+//@   ensures EqT(TraverseSeq(fp.Seq[A]{a, b, c}, fn), specTraverse3(a, b, c, fn))
+//@   tag seq
+//@   ensures EqT(seqOfIter(Traverse(fp.IteratorOfSeq(fp.Seq[A]{a, b, c}), fn)), specTraverse3(a, b, c, fn))
+//@   tag iterator
+//@   ensures EqT(seqOfSlice(TraverseSlice([]A{a, b, c}, fn)), specTraverse3(a, b, c, fn))
+//@   tag slice
+//@   ensures EqT(seqOfSlice(FlatMapTraverseSlice(Right[L]([]A{a, b, c}), fn)), specTraverse3(a, b, c, fn))
+//@   tag flatMapTraverse
+//
+//@ lemma eitherSequence3[L, A any](ta, tb, tc fp.Either[L, A])
+//@   prop C02
+//@   option unroll
+//@   ensures Eq(seqOfSlice(Sequence([]fp.Either[L, A]{ta, tb, tc})), specSequence3(ta, tb, tc))
+//@   tag slice
+//@   ensures Eq(seqOfIter(SequenceIterator(iterator.Of(ta, tb, tc))), specSequence3(ta, tb, tc))
+//@   tag iterator
